@@ -194,3 +194,57 @@ theorem atom_step (pf : Profile) (n : Nat) : FV.atom pf (n + 1) = Gen.atomStep p
 theorem parserTop (pf : Profile) (n : Nat) : FV.climbWith pf n = Gen.parserTop pf (FV.atom pf n) := rfl
 
 end FV.Tie
+
+namespace FV.Tie
+open FV FV.W
+
+/-! ### `_parse` and `parse`: the entry point -/
+
+theorem updAll_eq (leading : P Char (List GlobalOption)) (emptyTokens : List Token) (replacement : Token)
+    (lexer : P Char (List Token)) (climber : List Token → Res Token Expr) (disp : List Ctx → Text → ParseError)
+    (o : RunOptions) (gs : List GlobalOption) :
+    Gen.parseWith.updAll RunOptions.update o gs = FV.updateAll o gs := by
+  induction gs generalizing o with
+  | nil => rfl
+  | cons g gs ih =>
+    simp only [Gen.parseWith.updAll, FV.updateAll]
+    cases o.update g with
+    | none => rfl
+    | some o' => exact ih o'
+
+theorem sweep_eq (o : RunOptions) (ts : List Token) :
+    Gen.parseWith.sweep (Token.test Test.true_) RunOptions.update o ts = FV.sweepGlobals o ts := by
+  induction ts generalizing o with
+  | nil => rfl
+  | cons t ts ih =>
+    cases t with
+    | global g =>
+      simp only [Gen.parseWith.sweep, FV.sweepGlobals]
+      cases o.update g with
+      | none => rfl
+      | some o' => simp only [ih]
+    | lparen => simp only [Gen.parseWith.sweep, FV.sweepGlobals, ih]
+    | rparen => simp only [Gen.parseWith.sweep, FV.sweepGlobals, ih]
+    | or => simp only [Gen.parseWith.sweep, FV.sweepGlobals, ih]
+    | and => simp only [Gen.parseWith.sweep, FV.sweepGlobals, ih]
+    | not => simp only [Gen.parseWith.sweep, FV.sweepGlobals, ih]
+    | comma => simp only [Gen.parseWith.sweep, FV.sweepGlobals, ih]
+    | test x => simp only [Gen.parseWith.sweep, FV.sweepGlobals, ih]
+    | action x => simp only [Gen.parseWith.sweep, FV.sweepGlobals, ih]
+    | positional x => simp only [Gen.parseWith.sweep, FV.sweepGlobals, ih]
+
+theorem leadingGlobals : Gen.leadingGlobals = FV.leadingGlobals := by
+  funext pf
+  unfold Gen.leadingGlobals FV.leadingGlobals
+  rw [parseGlobal]
+
+/-- The whole entry point: `parse` as read from the source (statement skeleton of `_parse`/`parse` with
+    the translated leading-options parser, lexer and `-true` tokens) is the model's `parse`. -/
+theorem parse : Gen.parse = FV.parse := by
+  funext pf input
+  unfold Gen.parse FV.parse Gen.parseWith
+  rw [leadingGlobals, lex]
+  simp only [updAll_eq (FV.leadingGlobals pf) [Token.test Test.true_] (Token.test Test.true_) (FV.lex pf) (FV.climb pf) FV.dispatch, sweep_eq]
+  rfl
+
+end FV.Tie
